@@ -307,6 +307,13 @@ func (p *Prog) Method(pkg, typ, name string) *ssa.Function {
 			}
 		}
 	}
+	// the method may have become a function of the package that takes the former receiver as its first parameter
+	// (decodeFrom(t *Transport, rd) for (t *Transport) decodeFrom(rd)): the same subject
+	if f := p.Func(pkg, name); f != nil && f.Blocks != nil && len(f.Params) > 0 && f.Signature.Recv() == nil {
+		if namedOf(deref(f.Params[0].Type())) == n {
+			return f
+		}
+	}
 	return nil
 }
 
